@@ -137,3 +137,14 @@ impl ValidatorAddrsWatch {
         Ok(())
     }
 }
+
+#[cfg(feature = "verif")]
+impl ValidatorAddrsWatch {
+    /// Verification hook: acquires the sender lock that `update` / `announce` serialise on
+    /// (the inner watch is private to this module, so the accessor has to live here).
+    pub(crate) async fn verif_lock(
+        &self,
+    ) -> sync::MutexGuard<'_, sync::watch::Sender<ValidatorAddrs>> {
+        self.0.lock().await
+    }
+}
